@@ -46,8 +46,11 @@ def plan(tier, seed):
     ni = 240 if tier == "quick" else 12000
     step = 25 if tier == "quick" else 50
     s2 = 6 if tier == "quick" else 15
-    return ([{"kind": "plain", "start": s, "stop": min(n, s + step), "w": step * 0.2} for s in range(0, n, step)] +
-            [{"kind": "inv", "start": s, "stop": min(ni, s + s2), "w": s2} for s in range(0, ni, s2)])
+    units = ([{"kind": "plain", "start": s, "stop": min(n, s + step), "w": step * 0.2} for s in range(0, n, step)] +
+             [{"kind": "inv", "start": s, "stop": min(ni, s + s2), "w": s2} for s in range(0, ni, s2)])
+    if tier == "thorough":
+        units.append({"kind": "suite", "w": 10 ** 7})   # the repository's own tests with the contracts installed (DESIGN 1.5)
+    return units
 
 
 def _np(x):
@@ -79,12 +82,17 @@ def post_nn_mask(ctx, a, result, old):
     return (abs(float(result) - exp) <= 1e-10 * max(1.0, abs(exp)), {"expected": exp, "got": float(result)})
 
 
-def setup(ctx):
-    aa = ctx.aa = env.boot("base")
+def install_contracts(ctx):
+    """Also used by harness/suite_plugin.py (the repository's own tests drive the contracts in the thorough tier)."""
     from autoarray.fit import fit_util
     contracts.attach(ctx, fit_util, "log_evidence_from", post_log_evidence)
     contracts.attach(ctx, fit_util, "chi_squared_with_mask_from", post_chi_mask)
     contracts.attach(ctx, fit_util, "noise_normalization_with_mask_from", post_nn_mask)
+
+
+def setup(ctx):
+    aa = ctx.aa = env.boot("base")
+    install_contracts(ctx)
 
     class VerifFit(aa.FitImaging):
         def __init__(self, dataset, model, inv=None, **k):
